@@ -6,8 +6,8 @@
    are distinct, as in Python (follow looks a key up by first match); root_ok = the root is not a
    dangling pointer.  Hypotheses a statement does not need have been dropped. *)
 From Fiddle Require Import PyBase PySlice Sig ArgStore PyCall Heap Traverse Build Build_stmt
-  Traverse_proofs Build_proofs Iterate_proofs.
-From Coq Require Import List.
+  Traverse_proofs Build_proofs Iterate_proofs C08Check Cycle_proofs.
+From Coq Require Import List Relations.
 Import ListNotations.
 Local Open Scope nat_scope.
 
@@ -120,3 +120,39 @@ Example C08_nonvacuous :
   length (snd (iter_memo ex_env ex_heap false fuel [] ex_root [])) = 13.
 Proof. exact iterate_nonvacuous. Qed.
 Print Assumptions C08_nonvacuous.
+
+(* ------------------------------------------------------------------------------------------ *)
+(* Cycles: on ARBITRARY heaps (no well-formedness: reference cycles and dangling pointers allowed)
+   the memoized identity traversal never exhausts its fuel - the stack holds distinct valid ids, so
+   the recursion is never deeper than the number of objects: it ends with a result or an error -
+   and the cycle error is sound: FCycle c is reported only if c reaches itself through child
+   pointers; on an acyclic heap it is never reported.  (That every reachable cycle IS reported is
+   validated by the correspondence stream c08_cycles, not proved.) *)
+Theorem C08_cycle_never_recurses_forever : forall e h r s res,
+  mrun e h (rebuild_node e) r = (s, res) -> res <> inr FOutOfFuel.
+Proof. exact rebuild_never_out_of_fuel. Qed.
+Print Assumptions C08_cycle_never_recurses_forever.
+
+Theorem C08_reported_cycle_is_real : forall e h r s c,
+  mrun e h (rebuild_node e) r = (s, inr (FCycle c)) -> clos_trans nat (cstep e h) c c.
+Proof. exact rebuild_cycle_real. Qed.
+Print Assumptions C08_reported_cycle_is_real.
+
+Theorem C08_no_cycle_error_on_acyclic : forall e h r s c,
+  wf_b e h = true -> mrun e h (rebuild_node e) r <> (s, inr (FCycle c)).
+Proof. exact rebuild_no_cycle_on_wf. Qed.
+Print Assumptions C08_no_cycle_error_on_acyclic.
+
+(* the same for any traversal function that does not itself produce those two failures *)
+Theorem C08_generic_never_recurses_forever : forall e h on_node,
+  (forall i n rs o o', on_node i n rs o <> (o', inr FOutOfFuel)) ->
+  forall r s res, mrun e h on_node r = (s, res) -> res <> inr FOutOfFuel.
+Proof. exact mrun_never_out_of_fuel. Qed.
+Print Assumptions C08_generic_never_recurses_forever.
+
+(* non-vacuity: a list that contains itself through a dict *)
+Example C08_cycle_nonvacuous :
+  let h := [NList [RP 1]; NDict [(AStr [1%N], RP 0)]] in
+  snd (mrun [] h (rebuild_node []) (RP 1)) = inr (FCycle 1) /\ wf_b [] h = false.
+Proof. vm_compute. split; reflexivity. Qed.
+Print Assumptions C08_cycle_nonvacuous.
